@@ -166,6 +166,9 @@ func (c *Crasher) snapshot(label string) {
 	c.images = append(c.images, im)
 }
 
+// Snapshot takes an image now (for drivers that choose the crash instant themselves).
+func (c *Crasher) Snapshot(label string) { c.snapshot(label) }
+
 // Stop ends interception.
 func (c *Crasher) Stop() { SetIOHandler(nil) }
 
@@ -270,7 +273,20 @@ func (c *Crasher) reopen(dir string, im *image, proc bool, cutf int, cut int64, 
 			cv["did"] = true
 			vid, vb := e.V.New(9 + im.id%40)
 			cv["k"], cv["v"] = contKey, vid
-			cv["put"] = Guard(CallTimeout, func() error { return db.Put(e.U.Key(contKey), vb) })
+			if im.id%2 == 0 {
+				cv["put"] = Guard(CallTimeout, func() error { return db.Put(e.U.Key(contKey), vb) })
+			} else {
+				// the further write is a committed batch (a later batch must not revive the records
+				// an interrupted batch left in the log)
+				cv["put"] = Guard(CallTimeout, func() error {
+					b := db.NewBatch(kv.BatchOptions{})
+					if err := b.Put(e.U.Key(contKey), vb); err != nil {
+						b.Commit()
+						return err
+					}
+					return b.Commit()
+				})
+			}
 			Guard(CallTimeout, func() error { return db.Close() })
 			var db2 *kv.DB
 			ro := Guard(CallTimeout, func() error {
